@@ -203,6 +203,22 @@ def explore(ctx):
                     ctx.violation('timeouts-unbounded', f'{ps["extra"]} timeouts were reported in one round with MAX_TIMEOUTS={maxto} (N={nn}, all candidates hang, '
                                   f'several finish within one poll)', {'scenario': sc, 'kind': 'shim'})
                 each.append((driver.coq_scenario(sc, o.perm), o.out, sc))
+    # ... also when the report directories for hanging candidates are used up (nothing can be saved any more)
+    for nn in (1, 3):
+        for maxto in (1, 2):
+            sc = {'files': [('f0.c', 'abcdefghijkl')], 'rules': [([('lenge', 0, 12)], 0), ([], 'timeout')],
+                  'passes': [{'key': 1, 'ops': [('del', i) for i in range(12)], 'aos': 0, 'maxt': None, 'newfix': None}],
+                  'cfg': {'N': nn, 'maxto': maxto, 'maxextra': 2, 'no_cache': True}, 'extra0': 3, 'sched': [rnd.choice([0, 1, 1, 3]) for _ in range(80)]}
+            o = driver.run_scenario(sc, ctx.tmp)
+            ctx.evaluations += 1
+            ctx.count('timeouts-with-report-directories-used-up')
+            if o.diverged:
+                continue
+            ps = o.passes[0]
+            if ps['executed'] > maxto + nn:
+                ctx.violation('timeouts-unbounded', f'{ps["executed"]} candidates were started in a round in which every test hangs, MAX_TIMEOUTS={maxto}, N={nn} '
+                              f'(all cvise_extra_* directories already exist)', {'scenario': sc, 'kind': 'shim'})
+            each.append((driver.coq_scenario(sc, o.perm), o.out, sc))
     # a helper that fails for every candidate while pass bugs are silenced (--shaddap): the round still ends at the give-up limit
     for silent in (True, False):
         for g in (2, 4):
